@@ -38,11 +38,21 @@ EXPLANATION = (
     "writes are accepted by the reader; R5.9 decisions the printer takes on "
     "already-printed child text are content-safe (no tuple-unpacked unbounded "
     "split, no substring test choosing the Callable form); R5.10 the "
-    "functional TypedDict form prints the class keywords output.py emits.  "
+    "functional TypedDict form prints the class keywords output.py emits; "
+    "R5.12 no slice bound -len(X) unless X is known non-empty; R5.13 symbolic "
+    "execution of PrintVisitor.VisitClass over the truth values of the member "
+    "fields (node.classes/constants/methods/slots, derived from the code): on "
+    "every feasible path the header gets the ' ...' suffix iff every list "
+    "joined after the header is empty (suffix + indented body does not parse; "
+    "no suffix + no body does not parse either).  "
     "Each is a necessary condition: "
     "breaking one makes some emitted stub fail to parse or parse to a "
     "different declaration.  The text-level details of every Visit* method "
-    "and the parse-then-print fixed point itself are not decided.")
+    "and the parse-then-print fixed point itself are not decided.  Blind "
+    "spots of R5.13: the text of the emitted lines (indentation, the "
+    "__slots__ spelling), members printed as an empty string, and tests in "
+    "VisitClass the analysis cannot evaluate are taken to be independent of "
+    "the members unless they mention them (then: analysis error).")
 ASSUMPTIONS = [
     "node classes are dispatched by exact class name (parse/node.py: visitors "
     "for superclasses are not triggered), so a missing Visit<Class> leaves a "
@@ -53,6 +63,10 @@ ASSUMPTIONS = [
     "engine are used as references for R5.4/R5.3",
     "only vocabulary agreement is decided; layout, import bookkeeping and "
     "ordering inside the Visit* methods are out of reach of a static argument",
+    "R5.13: every printed nested class / method / constant has at least one "
+    "line (so sum((m.splitlines() for m in X), []) and a comprehension over X "
+    "are empty exactly when X is); loops in VisitClass do not touch the body "
+    "lists (locals bound in a loop become unknown)",
 ]
 
 PRINTER = "pytype/pytd/printer.py"
@@ -1459,6 +1473,9 @@ def _nonempty(e, env):
     return _nonempty(g[0].iter, env)
   if isinstance(e, ast.BinOp) and isinstance(e.op, ast.Add):
     return ("or", [_nonempty(e.left, env), _nonempty(e.right, env)])
+  if isinstance(e, ast.IfExp):
+    t = _truth(e.test, env)
+    return ("or", [("and", [t, _nonempty(e.body, env)]), ("and", [("not", t), _nonempty(e.orelse, env)])])
   if isinstance(e, ast.Call) and not e.keywords:
     d = dotted(e.func)
     if d in ("list", "tuple", "sorted") and len(e.args) == 1:
@@ -1964,6 +1981,12 @@ VARIANTS = [
             "    if len(body) == 0:\n"
             "      header[-1] += \" ...\"\n"
             "    lines = decorators + header + body\n"},
+    {"name": "twin-slots-as-conditional-expression", "rule": "R5.13", "file": PRINTER,
+     "expect": "silent",
+     "old": "    if node.slots is not None:\n      slots_str = \", \".join(f'\"{s}\"' for s in node.slots)\n"
+            "      slots = [self.INDENT + f\"__slots__ = [{slots_str}]\"]\n    else:\n      slots = []\n",
+     "new": "    slots_str = \", \".join(f'\"{s}\"' for s in node.slots or ())\n"
+            "    slots = [self.INDENT + f\"__slots__ = [{slots_str}]\"] if node.slots is not None else []\n"},
     {"name": "twin-emptiness-test-negated-arms-swapped", "rule": "R5.13", "file": PRINTER,
      "expect": "silent", "old": _VISITCLASS_TAIL,
      "new": "    if not (slots or node.constants or node.methods or node.classes):\n"
